@@ -24,10 +24,14 @@ def top(body):
 
 
 def main():
+    # the digests are dumps of syntax trees: they must be made by the interpreter that runs the checks
+    if os.path.realpath(sys.executable) != os.path.realpath('/venv/bin/python') and os.path.exists('/venv/bin/python'):
+        os.execv('/venv/bin/python', ['/venv/bin/python', '-I', '-S', os.path.abspath(__file__)] + sys.argv[1:])
     root = sys.argv[1] if len(sys.argv) > 1 else '/repo/src'
     tab = {}
     digests = {}
     attrs = {}
+    shapes = {}
     constants = {}
     for dp, _dn, fn in os.walk(os.path.join(root, 'xdoctest')):
         for f in fn:
@@ -48,9 +52,10 @@ def main():
             tab[rel] = sorted(names)
             digests[rel] = {q: loader.fn_digest(n) for q, n in loader.function_table(t).items()}
             attrs[rel] = loader.attr_signatures(t)
+            shapes[rel] = {q: loader.fn_shape(n) for q, n in loader.function_table(t).items()}
             constants[rel] = loader.module_constants(t)
     out = os.path.join(os.path.dirname(os.path.dirname(os.path.abspath(__file__))), 'xdstat', 'known_functions.json')
-    json.dump({'functions': tab, 'digests': digests, 'attrs': attrs, 'constants': constants}, open(out, 'w'), indent=0, sort_keys=True)
+    json.dump({'functions': tab, 'digests': digests, 'attrs': attrs, 'constants': constants, 'shapes': shapes}, open(out, 'w'), indent=0, sort_keys=True)
     print('%d names in %d modules -> %s' % (sum(len(v) for v in tab.values()), len(tab), out))
 
 
